@@ -1,6 +1,7 @@
 mod debug_tree;
 mod include;
 mod decode;
+mod editop;
 mod itemlist;
 mod lexer;
 mod loadop;
@@ -28,6 +29,7 @@ fn main() {
         "lexer-replay" => lexer::replay(&args),
         "load-op" => loadop::run(&args),
         "model-op" => modelop::run(&args),
+        "edit-op" => editop::run(&args),
         "typed-op" => typedop::run(&args),
         "placement-replay" => placement::replay(&args),
         "placement-record" => placement::record(&args),
